@@ -124,15 +124,10 @@ def run(ctx):
     max_dec = ctx.n(7, 10)
     items = []
     sysprogs = cf.systematic_programs(2 if ctx.quick else 3)
-    if ctx.quick:
-        rng = ctx.rng("sys")
-        fr = [p for p in sysprogs if p[2][0] == "sys-from"]
-        rest = [p for p in sysprogs if p[2][0] != "sys-from"]
-        sysprogs = rng.sample(fr, 120) + rng.sample(rest, 170)
     for p in sysprogs:
         items.append(("sys", p, max_dec, ctx.n(8, 30), ctx.seed))
     base = ctx.seed * 1000003 + 17
-    for i in range(ctx.n(300, 6000)):
+    for i in range(ctx.n(800, 8000)):
         items.append(("rand", base + i, max_dec, ctx.n(5, 12), ctx.seed))
     for prog in corpus.all_programs():
         items.append(("corpus", prog, 0, 0, ctx.seed))
